@@ -219,6 +219,22 @@ def run(ctx: Ctx) -> None:
         files = {f"c{i}": (f"#include 'c{i + 1}'\n" if i < n else "") + f"k{i} {i};\n" for i in range(1, n + 1)}
         cases.append({"kind": "src", "text": f"#include 'c1'\nk0 0;\nspan \"1 + $k{n}\";\n", "items": [], "files": files, "transitive": True,
                       "has_expr": True, "has_incl": True})
+    # a flat include that shares a nested dict path with the including file, with comments at different depths inside it
+    for depth, where in ((2, "deep"), (3, "deep"), (3, "mid"), (2, "top")):
+        path = ["mesh", "refinement", "region"][:depth]
+        def block(names, leaf_lines):
+            out = list(leaf_lines)
+            for nm in reversed(names):
+                out = [nm, "{"] + ["    " + l for l in out] + ["}"]
+            return "\n".join(out) + "\n"
+        inc_leaf = (["// from include"] if where == "deep" else []) + ["b 2;"]
+        inc_text = block(path, inc_leaf)
+        if where == "mid":
+            inc_text = block(path[:1], ["// from include (mid)"] + block(path[1:], ["b 2;"]).splitlines())
+        if where == "top":
+            inc_text = "// from include (top)\n" + inc_text
+        cases.append({"kind": "src", "text": "#include 'inc'\n" + block(path, ["a 1;"]), "items": [], "files": {"inc": inc_text}, "transitive": False,
+                      "has_expr": False, "has_incl": True})
     for _ in range(ctx.n(250, 5000)):
         cases.append(gen_source(rng))
     process(ctx, cases)
